@@ -33,7 +33,7 @@ Definition set_imputed (r : row) (s : string) (ru : list string) : row :=
 Definition set_conf (r : row) (c : Z) : row :=
   mkRow (rid r) (rxn r) (rinput r) (solved r) (sby r) (issue r) (carbon r) (mcs r) (rules r) (Some c).
 
-Inductive imp_result := ImpOk (new_rxn : string) (rule_names : list string) | ImpFail (msg : string).
+Inductive imp_result := ImpOk (merged : string) (rule_names : list string) | ImpFail (msg : string).
 
 Record oracles := {
   strip : string -> string;                 (* remove_atom_mapping (modelled in Model/Aam.v) *)
@@ -41,7 +41,8 @@ Record oracles := {
   decomp : string -> dict;                  (* RSMIDecomposer.decompose of a side string *)
   ccount : string -> Z;                     (* carbon atoms of one component *)
   mcs_state : string -> bool * string;      (* MCSSearch.find on this reaction: (mcs is None, issue) *)
-  impute : string -> imp_result;            (* impute_reaction on this reaction *)
+  impute : string -> imp_result;            (* impute_reaction on this reaction: the merged (standardised) SMILES that is
+                                               appended as "{reaction}.{merged}", or the exception text *)
   pp : string -> option string;             (* PostProcess: Some c = labelled and curated to c *)
   confidence : string -> string -> Z        (* input_reaction -> reaction -> key of the score *)
 }.
@@ -163,7 +164,7 @@ Definition mcs_impute (r : row) : row :=
   match mcs r with
   | Some true =>
     match impute OR (rxn r) with
-    | ImpOk s ru => set_imputed r s ru
+    | ImpOk s ru => set_imputed r (rxn r ++ "." ++ s) ru
     | ImpFail m => set_issue r (Some m)
     end
   | _ => r
